@@ -264,6 +264,7 @@ def worker(prop: str, tier: str, idx: int, nworkers: int, seed: int, ncases: int
             r["no"] = no
             if r["status"] != "ok":
                 r["case"] = case
+                r["pythonhashseed"] = os.environ.get("PYTHONHASHSEED")
             results.append(r)
         except CaseTimeout:
             # the implementation (or, far less likely, the model) did not come back: the correspondence is broken on
@@ -289,7 +290,10 @@ def run_cases(prop: str, tier: str, seed: int, ncases: int, nworkers: int, wide:
         out = os.path.join(d, f"w{i}.json")
         cmd = [PY, "-m", "harness.runner", "--worker", prop, tier, str(i), str(nworkers), str(seed),
                str(ncases), out, "1" if wide else "0"]
-        procs.append((subprocess.Popen(cmd, cwd=ROOT), out))
+        # every worker runs under its own PYTHONHASHSEED: symbol ids (set iteration order in the parser) then differ from
+        # worker to worker, and no result may depend on them (C11)
+        env = dict(os.environ, PYTHONHASHSEED=str((seed * 131 + i * 17 + 1) % 4000000))
+        procs.append((subprocess.Popen(cmd, cwd=ROOT, env=env), out))
     results: List[Dict[str, Any]] = []
     for p, out in procs:
         rc = p.wait()
@@ -468,7 +472,7 @@ def main_check(prop: str, tier: str) -> int:
             if drv is not None:
                 drv.close()
         replay_path = os.path.join(replay_dir, f"{prop}-{digest(small)}.json")
-        write_json(replay_path, {"property": prop, "kind": "failing-input", "violations": rr.get("violations"),
+        write_json(replay_path, {"property": prop, "kind": "failing-input", "pythonhashseed": r.get("pythonhashseed"), "violations": rr.get("violations"),
                                  "diffs": rr.get("diffs"), "case": small, "seed": seed, "tier": tier})
         log(f"VIOLATION property={prop} replay={replay_path}")
         status = 1
@@ -534,6 +538,10 @@ def main_replay(path: str) -> int:
     from harness import leandrv
     rp = json.load(open(path))
     prop = rp["property"]
+    hs = rp.get("pythonhashseed")
+    if hs is not None and os.environ.get("PYTHONHASHSEED") != str(hs):
+        # the failing run had this hash seed (it fixes the numbering of the symbol ids): replay under the same one
+        os.execve(PY, [PY, "-m", "harness.runner", "--replay", path], dict(os.environ, PYTHONHASHSEED=str(hs)))
     if rp.get("kind") != "failing-input":
         log(json.dumps(rp, indent=1)[:4000])
         return 1
